@@ -385,3 +385,30 @@ func TestVerifReplayIterateDocsRaw(t *testing.T) {
 	}
 	fmt.Printf("REPLAY PASS scenario: x > 5 (Go int literal) with an index on x: FindAll returns %d documents, IterateDocs %s\n", len(all), res)
 }
+
+// Indexes are independent (C14): dropping the index on "x" leaves the index on "xy" exact.
+func TestVerifReplayIndexPrefix(t *testing.T) {
+	db, err := Open(t.TempDir())
+	if err != nil {
+		t.Fatal(err)
+	}
+	defer db.Close()
+	db.CreateCollection("c")
+	for i := 0; i < 10; i++ {
+		doc := d.NewDocument()
+		doc.Set("x", i)
+		doc.Set("xy", i)
+		db.InsertOne("c", doc)
+	}
+	db.CreateIndex("c", "x")
+	db.CreateIndex("c", "xy")
+	q := query.NewQuery("c").Where(query.Field("xy").GtEq(0))
+	before, _ := db.FindAll(q)
+	err = db.DropIndex("c", "x")
+	after, _ := db.FindAll(q)
+	if len(after) != len(before) {
+		fmt.Printf("REPLAY FAIL scenario: indexes on x and xy over 10 documents, DropIndex(x) (result %v): xy >= 0 returned %d documents before the drop and %d after it\n", err, len(before), len(after))
+		t.Fatal("dropping one index emptied another whose field name it prefixes")
+	}
+	fmt.Printf("REPLAY PASS scenario: indexes on x and xy over 10 documents, DropIndex(x) (result %v): xy >= 0 returns %d documents before and after\n", err, len(after))
+}
